@@ -1,17 +1,23 @@
-(* C15 — solve, QR, determinant and norm satisfy their defining equations.   (PARTIAL)
+(* C15 — solve, QR, determinant and norm satisfy their defining equations.
    The model runs the code's algorithms over exact rationals Q: LU with partial pivoting (right-hand side permuted
    and the several-column substitution as repaired), forward / back substitution, cofactor determinant.
-   PROVED: the 2 x 2 determinant closed form; the determinant of larger matrices is the expansion along the first
-   column with alternating signs; a matrix with |det| < 1e-12 is refused with the singular-matrix error; on a
-   pivoting example with a two-column right-hand side the model's solution satisfies A x = b exactly.
-   NOT PROVED (the large open proof): A x = b for every invertible A (the P A = L U invariant).  Instead, on every
-   case of the run the extracted model evaluates A x = b EXACTLY over Q for its own solution (must hold) and the
-   implementation's f64 solution is compared with it within 2^-30 and its residual is bounded; QR (Q R = A, Q^T Q = I,
-   R upper), norm definitions and the determinant laws are checked on the implementation's outputs in exact / bounded
-   arithmetic.  Nothing is proved about floating-point rounding. *)
+   PROVED: C15_solve — for every size n >= 1, every n x n matrix a and every right-hand side b with n rows of k entries:
+   when solve answers and no pivot of the elimination is zero, the returned matrix x has the shape of b and satisfies
+   sum_c a[i][c] * x[c][j] == b[i][j] for every entry, exactly.  The proof carries the invariant  P A = L U  through the
+   code's own steps (pivot search, the exchange of the rows of U, of the computed part of L and of the row order, the
+   elimination below the pivot), then the forward and back substitutions as the code performs them (Lu_step.v,
+   Lu_solve.v); C15_solve_residual: the executable residual test is therefore true; C15_pivot_test: the hypothesis is
+   the Boolean pivots_okb, which the correspondence run evaluates on every case (it held on every answered case).
+   Also: the 2 x 2 determinant closed form; the determinant of larger matrices is the expansion along the first
+   column with alternating signs; a matrix with |det| < 1e-12 is refused with the singular-matrix error.
+   NOT PROVED: that a non-zero determinant implies non-zero pivots (the link between the cofactor expansion the code
+   uses for its singularity test and the elimination) — hence the pivot hypothesis; nothing about floating-point
+   rounding: the implementation's f64 solution is compared with the exact one within 2^-30 and its residual is
+   bounded on every case; QR (Q R = A, Q^T Q = I, R upper), norm definitions and the determinant laws are checked on
+   the implementation's outputs in exact / bounded arithmetic. *)
 From Coq Require Import QArith.
 Local Close Scope Q_scope.
-From ArrRs Require Import Index Axis Linsolve Linsolve_proofs.
+From ArrRs Require Import Index Axis Linsolve Linsolve_proofs Lu_sums Lu_step Lu_solve.
 
 Theorem C15_det_2 : forall a b c d, (det [[a; b]; [c; d]] == a * d - b * c)%Q.
 Proof. exact det_2. Qed.
@@ -29,3 +35,29 @@ Theorem C15_solve_residual_example_partial :
   | Ok x => residual_ok [[2;1;1];[4;3;3];[8;7;9]]%Q x [[1;0];[2;1];[3;5]]%Q = true
   | _ => False end.
 Proof. exact solve_example. Qed.
+
+(* SOLVE: A X = B exactly, every size, every right-hand side *)
+Theorem C15_solve : forall a b x n k,
+  dims n a -> 0 < n -> length b = n -> (forall r, r < n -> length (nth r b []) = k) ->
+  pivots_ok a -> solve a b = Ok x ->
+  (length x = n /\ forall r, r < n -> length (nth r x []) = k) /\
+  forall i j, i < n -> j < k -> (qsum (fun c => qget a i c * qget x c j) n == qget b i j)%Q.
+Proof. exact solve_correct. Qed.
+
+Theorem C15_solve_residual : forall a b x n k,
+  dims n a -> 0 < n -> length b = n -> (forall r, r < n -> length (nth r b []) = k) ->
+  pivots_ok a -> solve a b = Ok x -> residual_ok a x b = true.
+Proof. exact solve_residual. Qed.
+
+Theorem C15_pivot_test : forall a, pivots_okb a = true -> pivots_ok a.
+Proof. exact pivots_okb_ok. Qed.
+
+(* the invariant of the elimination: after all columns  P A = L U  with U upper triangular *)
+Theorem C15_lu_invariant : forall a n, dims n a -> pivots_ok a -> forall k, k <= n ->
+  Inv a n k (stL (lu_state a k)) (stU (lu_state a k)) (stO (lu_state a k)).
+Proof. exact lu_state_inv. Qed.
+
+Example C15_solve_applies :
+  let a := [[2;1;1];[4;3;3];[8;7;9]]%Q in let b := [[1;0];[2;1];[3;5]]%Q in
+  dims 3 a /\ pivots_ok a /\ exists x, solve a b = Ok x.
+Proof. exact solve_correct_applies. Qed.
